@@ -175,6 +175,11 @@ func checkC04Tx(t *Toks) string {
 	for _, p := range txPerts(tx) {
 		c := tx.Copy()
 		c.Flag = tx.Flag
+		// the object is hashed once before it is changed in place: a result remembered inside the object would
+		// survive the change ("repeating a call after an edit" is part of "for all transactions")
+		if c.TxHash() != id || c.WitnessHash() != wid {
+			return fail("TxHash", "copy-hashes-differently")
+		}
 		if !p.apply(c) {
 			continue
 		}
